@@ -267,6 +267,7 @@ pub fn finish(mut r: Report) -> i32 {
         }
     }
     let replay_dir = root.join("out/replay").join(&r.id);
+    let _ = std::fs::remove_dir_all(&replay_dir);   // no stale artefacts from earlier runs
     let _ = std::fs::create_dir_all(&replay_dir);
     let mut n_written = 0;
     let mut violation_sigs: BTreeMap<String, u64> = BTreeMap::new();
